@@ -35,6 +35,24 @@ def units(rng, tier):
         C, cv, fam3 = gen.covering_instance(rng, nmax=10)
         for a, cmp in COV:
             us.append(pack_unit(a, C, cv, rng, fmt=rng.choice(gen.FORMATS), cmp=cmp, family="cover/" + fam3))
+    # dense streams for the rarely taken branches of the class-based covers (one medium item left, a class running out first,
+    # items exactly at C/2 and C/3) and of the fit packers (exact fills): cheap, so thousands of small instances
+    for _ in range(2500 if tier == "quick" else 30000):
+        C = rng.choice([6, 7, 9, 10, 12, 14, 16, 17, 23, 30])
+        n = rng.randint(2, 9)
+        mode = rng.random()
+        if mode < 0.5:
+            cv = [rng.randint(1, C) for _ in range(n)]
+        elif mode < 0.8:
+            cand = [C // 2, C // 2 + 1, max(1, C // 2 - 1), max(1, C // 3), C // 3 + 1, max(1, C // 3 - 1), 1, 2, 3, max(1, C // 4)]
+            cv = [rng.choice(cand) for _ in range(n)]
+        else:
+            cv = [rng.randint(1, max(1, int(1.2 * C))) for _ in range(n)]
+        a, cmp = rng.choice(COV + [COV[-1]])
+        us.append(pack_unit(a, C, cv, family="cover-dense", cmp=cmp))
+        if rng.random() < 0.4:
+            a2, cmp2 = rng.choice(PACK)
+            us.append(pack_unit(a2, C, [min(v, C) for v in cv], family="pack-dense", cmp=cmp2))
     for _ in range(10 if tier == "quick" else 100):
         n = rng.randint(40, 150)
         C = rng.choice([100, 1000])
